@@ -97,6 +97,13 @@ class EngineG(EngineBase):
             e = self.pairs[(base + k) % len(self.pairs)]
             ast = ("expr", ("assign", "=", ("atom", ("id", "tmp")), e))
             texts.append(self._gen_text(ch, ast, paren_postfix, "pair"))
+        if ch.chance(1, 2, "twins"):
+            # two different ASTs whose texts differ only in whitespace: a parser (or cache) that ignores token
+            # boundaries confuses them, and different nodes see them in different orders
+            t1, t2 = ch.choice(gen_c.whitespace_twins(), "twin")
+            for e in (t1, t2):
+                ast = ("expr", ("assign", "=", ("atom", ("id", "x")), e))
+                texts.append(self._gen_text(ch, ast, False, "gen"))
         n_gen = ch.randint(3, 9, "n_gen")
         for _ in range(n_gen):
             g = gen_c.CGen(ch)
@@ -105,6 +112,10 @@ class EngineG(EngineBase):
             else:
                 ast = ("expr", ("assign", "=", ("atom", ("id", "tmp")), g.expr(ch.randint(1, 5, "ed"))))
             texts.append(self._gen_text(ch, ast, paren_postfix, "gen"))
+        if self.tier == "thorough":
+            # systematic slice: after len(corpus)/4 runs every bundled line has been parsed by 2..3 nodes
+            for k in range(4):
+                texts.append({"kind": "corpus", "text": self.corpus_texts[(index * 4 + k) % len(self.corpus_texts)]})
         pool = self.corpus_short if self.tier == "quick" or ch.chance(3, 4, "short") else self.corpus_texts
         for _ in range(ch.randint(0, 3, "n_corpus")):
             texts.append({"kind": "corpus", "text": ch.choice(pool, "corpus")})
